@@ -699,6 +699,25 @@ package fzf
 // matchChunk: the result holds exactly the chunk's items (or the items of the narrowed-down previous result)
 // that satisfy the query: nothing that fails the query is reported, every candidate that satisfies it is
 // reported, and (chunk scan) the number of results is the number of satisfying items, so none is reported twice.
+// Pattern.Match: the per-chunk result cache answers, and is filled, only for cacheable patterns - a query with a
+// negated term, an OR group or a ^ $ ' term shares its cache key with the plain terms it contains and must not be
+// given (or store) their lists; whatever the cache says, a pattern that is not cacheable reports only items that
+// satisfy it.
+//@ func Pattern.Match
+//@ property C01 C04
+//@ requires p != nil && p.cache != nil && chunk != nil && 0 <= chunk.count && chunk.count <= 100 && len(p.nth) == 0 && p.procFun != nil && (p.fuzzy ==> p.fuzzyAlgo != nil)
+//@ modifies *p.cache
+//@ callsite Lookup requires p.cacheable
+//@ callsite Add requires p.cacheable
+//@ ensures !p.cacheable ==> forall(j, 0, len(result), result[j].item != nil && shown(p, result[j].item))
+//@ func Pattern.CacheKey trusted
+//@ func ChunkCache.Lookup trusted
+//@ ensures forall(k, 0, len(result), result[k].item != nil)
+//@ func ChunkCache.Search trusted
+//@ ensures forall(k, 0, len(result), result[k].item != nil)
+//@ func ChunkCache.Add trusted
+//@ modifies *cc
+
 //@ func Pattern.matchChunk
 //@ property C01 C06
 //@ requires p != nil && chunk != nil && 0 <= chunk.count && chunk.count <= 100 && len(p.nth) == 0 && p.procFun != nil && (p.fuzzy ==> p.fuzzyAlgo != nil)
